@@ -46,6 +46,11 @@ static mj::Value cmd_c18(const mj::Value &rq) {
   r.set("back", render(back));
   bool nonfinite = false;
   r.set("equal", verif::json_equiv(v, back, nonfinite));
+  if (rq.has("poison")) {
+    // a successful parse of a string, so that whatever a defective parser kept from the rejected text cannot reach the *next* case
+    mj::Value ignored = mj::Value::object();
+    guarded(ignored, [&]() { return s.chai->eval("from_json(\"\\\"flush\\\"\")"); });
+  }
   return r;
 }
 static Registrar r_c18("c18", cmd_c18);
